@@ -473,12 +473,13 @@ def find_closest_lower_or_higher_element_indices_to_values(x: Union[np.ndarray, 
     """
     indices = np.zeros(len(lookup), dtype=np.int64)
 
-    x_it = iter(x)
+    # iterate over Python scalars: distances of fixed-width integers overflow (int8 50 - (-100))
+    x_it = iter(np.asarray(x).tolist())
     x_val = next(x_it)
     x_next_val = next(x_it, None)
     x_idx = 0
 
-    lookup_it = iter(lookup)
+    lookup_it = iter(np.asarray(lookup).tolist())
     lookup_val = next(lookup_it)
     lookup_idx = 0
 
